@@ -244,7 +244,7 @@ package rpc
 //@ observe persistConn.alive as aliveSeen
 
 //@ pure csOK(cs *conns, a int) bool = cs != nil && sid(cs.addr) == a && cs.cursor >= 0 && cs.cursor <= 1<<47 &&
-//@      forall(i, 0, len(cs.Conns), cs.Conns[i] != nil && gf_addr(cs.Conns[i]) == a)
+//@      forall(i, 0, len(cs.Conns), cs.Conns[i] != nil && gf_addr(cs.Conns[i]) == a && cs.Conns[i].Conn != nil)
 //@ pure cqOK(cq *connQueue, a int, maxIdle int) bool = cq != nil && sid(cq.addr) == a && 0 <= cq.length && cq.length <= cq.capacity && cq.capacity <= maxIdle
 //@ pure nAct(t *Transport, a int) int = ite(has(t.conns, a), len(t.conns[a].Conns), 0)
 //@ pure nIdle(t *Transport, a int) int = ite(has(t.idleConns, a), t.idleConns[a].length, 0)
@@ -257,7 +257,7 @@ package rpc
 //@   invariant forallkey(a, self.conns, csOK(self.conns[a], a))
 //@   invariant forallkey(a, self.conns, forallkey(b, self.conns, implies(a != b && arr(self.conns[a].Conns) != 0, arr(self.conns[a].Conns) != arr(self.conns[b].Conns))))
 //@   invariant forallkey(a, self.idleConns, cqOK(self.idleConns[a], a, self.MaxIdleConnsPerHost))
-//@   invariant [C13] forallint(a, nAct(self, a) + nIdle(self, a) <= self.MaxConnsPerHost)
+//@   invariant [C13] forallint(a, nAct(self, a) <= self.MaxConnsPerHost && nIdle(self, a) <= self.MaxConnsPerHost - nAct(self, a))
 
 //@ extern Transport.Dial
 //@   params network, address, codec
@@ -271,8 +271,9 @@ package rpc
 //@   requires t != nil && holds(Transport_connsMu) && !isnil(t.Dial) && !isnil(t.DialWithOptions)
 //@   ghostset gf_addr(result0) = sid(addr)
 //@   ghostset gb_aliveSeen(result0) = true
-//@   ensures implies(err == nil, result0 != nil && fresh(result0) && gf_addr(result0) == sid(addr) && gb_aliveSeen(result0))
+//@   ensures implies(err == nil, result0 != nil && fresh(result0) && gf_addr(result0) == sid(addr) && gb_aliveSeen(result0) && result0.Conn != nil)
 //@   ensures implies(err != nil, result0 == nil && err == ErrDial)
+//@   modifies fresh
 
 //@ func (*conns).Cursor
 //@   property C13
@@ -290,7 +291,7 @@ package rpc
 //@   property C13 C14
 //@   requires q != nil
 //@   ensures implies(old(q.length) == 0, result == nil && q.length == 0)
-//@   ensures implies(old(q.length) != 0, result != nil && gf_addr(result) == sid(q.addr) && q.length == old(q.length) - 1)
+//@   ensures implies(old(q.length) != 0, result != nil && result.Conn != nil && gf_addr(result) == sid(q.addr) && q.length == old(q.length) - 1)
 //@   modifies q.length
 
 //@ func (*Transport).getConn
@@ -300,3 +301,75 @@ package rpc
 //@   ensures implies(err == nil, pc != nil && gf_addr(pc) == sid(addr))
 //@   ensures [C14] implies(err == nil, gb_aliveSeen(pc))
 //@   ensures implies(err != nil, pc == nil && err == ErrDial)
+//@   ghostset gg_gotpc() = ref(pc)
+//@   ghostset gg_gotconn() = ref(pc.Conn)
+//@   ghostset gg_gotaddr() = gf_addr(pc)
+//@   ensures implies(err == nil, pc.Conn != nil)
+
+// Conn methods used by the Transport wrappers: assumed contracts for now (ghost call counter gg_ncall, last connection
+// used gg_lastconn); their bodies are verified under Part 5 where present.
+//@ func (*Conn).Call
+//@   trusted
+//@   requires conn != nil
+//@   ghostset gg_ncall() = gg_ncall() + 1
+//@   ghostset gg_lastconn() = ref(conn)
+//@ func (*Conn).CallWithContext
+//@   trusted
+//@   requires conn != nil
+//@   ghostset gg_ncall() = gg_ncall() + 1
+//@   ghostset gg_lastconn() = ref(conn)
+//@ func (*Conn).Go
+//@   trusted
+//@   requires conn != nil
+//@   ensures result != nil
+//@   ghostset gg_ncall() = gg_ncall() + 1
+//@   ghostset gg_lastconn() = ref(conn)
+//@ func (*Conn).RoundTrip
+//@   trusted
+//@   requires conn != nil && call != nil
+//@   ensures result == call
+//@   ghostset gg_ncall() = gg_ncall() + 1
+//@   ghostset gg_lastconn() = ref(conn)
+//@ func (*Conn).NewStream
+//@   trusted
+//@   requires conn != nil
+//@   ghostset gg_ncall() = gg_ncall() + 1
+//@   ghostset gg_lastconn() = ref(conn)
+//@ func (*Conn).Ping
+//@   trusted
+//@   requires conn != nil
+//@   ghostset gg_ncall() = gg_ncall() + 1
+//@   ghostset gg_lastconn() = ref(conn)
+//@ func (*Conn).Close
+//@   trusted
+//@   requires conn != nil
+//@   ghostset gb_closeCalled(conn) = true
+
+//@ func checkPersistConnErr
+//@   property C14
+//@   requires pc != nil && pc.Conn != nil
+//@   ghostset gb_markedDead(pc) = gb_markedDead(pc) || err == ErrShutdown
+//@   ensures implies(err == ErrShutdown, !pc.alive && gb_closeCalled(pc.Conn))
+
+//@ pure oneCallTo(addr string) bool = gg_ncall() == old(gg_ncall()) + 1 && gg_lastconn() == gg_gotconn() && gg_gotaddr() == sid(addr)
+
+//@ func (*Transport).Call
+//@   property C14 C04
+//@   requires t != nil
+//@   ensures gg_ncall() == old(gg_ncall()) || (oneCallTo(addr) && implies(result == ErrShutdown, gb_markedDead(gg_gotpc())))
+//@   ensures implies(len(addr) == 0, result == ErrDial && gg_ncall() == old(gg_ncall()))
+//@ func (*Transport).CallWithContext
+//@   property C14 C04 C19
+//@   requires t != nil
+//@   ensures gg_ncall() == old(gg_ncall()) || (oneCallTo(addr) && implies(result == ErrShutdown, gb_markedDead(gg_gotpc())))
+//@   ensures implies(len(addr) == 0, result == ErrDial && gg_ncall() == old(gg_ncall()))
+//@ func (*Transport).Ping
+//@   property C14 C04
+//@   requires t != nil
+//@   ensures gg_ncall() == old(gg_ncall()) || (oneCallTo(addr) && implies(result == ErrShutdown, gb_markedDead(gg_gotpc())))
+//@   ensures implies(len(addr) == 0, result == ErrDial && gg_ncall() == old(gg_ncall()))
+//@ func (*Transport).NewStream
+//@   property C14 C04
+//@   requires t != nil
+//@   ensures gg_ncall() == old(gg_ncall()) || (oneCallTo(addr) && implies(err == ErrShutdown, gb_markedDead(gg_gotpc())))
+//@   ensures implies(len(addr) == 0, err == ErrDial && gg_ncall() == old(gg_ncall()))
